@@ -200,6 +200,23 @@ fn main() {
             check_case(l, mu.cfg, &map, &setts, &|| format!("cfg={:?}\nspec={}\n--- .osu ---\n{}", mu.cfg, spec.describe(), spec.text()));
         });
     }
+    // marathon maps: a hard opening (40 notes 100 ms apart) and an easy tail of 1080 notes 400 ms apart — more than 1024
+    // strain sections, and the decisive peaks are the oldest ones; every prefix of every mode configuration
+    {
+        let cfgs: Vec<ModeCfg> = MODE_CFGS.to_vec();
+        ctx.universe("marathon/40-fast+1080-slow/every-prefix", cfgs.len() as u64, |idx, l| {
+            use std::fmt::Write as _;
+            let cfg = cfgs[idx as usize];
+            let mut t = format!("osu file format v14\n\n[General]\nMode: {}\n\n[Difficulty]\nHPDrainRate:5\nCircleSize:4\nOverallDifficulty:7\nApproachRate:8\nSliderMultiplier:1.4\nSliderTickRate:1\n\n[TimingPoints]\n0,400,4,2,0,60,1,0\n\n[HitObjects]\n", cfg.src);
+            let mut time = 1000;
+            for i in 0..1120u32 {
+                let _ = writeln!(t, "{},192,{time},1,{},0:0:0:0:", [64, 448, 192, 320][(i % 4) as usize], if i % 3 == 0 { 8 } else { 0 });
+                time += if i < 40 { 100 } else { 400 };
+            }
+            let map = Beatmap::from_bytes(t.as_bytes()).expect("decodes");
+            check_case(l, cfg, &map, &[Setting::nm()], &|| format!("cfg={cfg:?}\nmarathon map: mode {} file, 40 notes 100 ms apart, then 1080 notes 400 ms apart (x cycling over 64, 448, 192, 320)", cfg.src));
+        });
+    }
     // native mania with a fractional key count (CircleSize x.5: every calculator has to round it the same way)
     {
         let cfg = ModeCfg { src: 3, dst: 3 };
